@@ -17,8 +17,8 @@ CLAIMS = {
          "H-WSTEP canonical bytes + H-WRT round trip (CBMC, SAT)", "5/C05"),
  "C06": (MC, "All tree shapes up to T tokens x every traversal variant (full, one container skipped / raw-extracted, early leave at every position), nesting chains, container-sibling pairs, every tree up to 10 tokens over one scalar kind (thorough), and all stack-consistent call scripts up to K calls on ALL valid n-byte documents, compared call by call with a reference cursor.",
          "H-SHAPE + H-SCRIPT vs reference cursor (CBMC, SAT)", "5/C06"),
- "C07": (MC, "Lookup scripts with SYMBOLIC searched names and symbolic field names on object shapes with 1-3 fields (prefix pairs, 0x00, >=0x80 all included by symbolism) and on all valid n-byte objects, compared with a reference lookup; the three-way compare kernel for all contents up to 4 bytes.",
-         "H-SHAPE/H-SCRIPT lookups vs reference lookup + H-LEAF (CBMC, SAT)", "5/C07"),
+ "C07": (MC, "Lookup scripts with SYMBOLIC searched names and symbolic field names on object shapes with 1-3 fields (prefix pairs, 0x00, >=0x80 all included by symbolism) and on all valid n-byte objects, compared with a reference lookup; the three-way compare kernel for all contents up to 4 bytes; a failed lookup that stops at a stored name of ANY length 1..INT32_MAX (symbolic 1/2/4-byte length prefix, claimed-size buffer) steps back to the start of that name.",
+         "H-SHAPE/H-SCRIPT lookups vs reference lookup + H-LEAF + H-LOOKUP-BIG claimed-size lookup (CBMC, SAT)", "5/C07"),
  "C08": (MC, "Parser-driven traversals on ARBITRARY bytes that end by leaving the root: success <=> the reference recogniser accepts; plus every single-byte mutation of the structure of every small shape, for full / skipping / leave-at-once traversals.",
          "H-SCRIPT (parser-driven) + H-MUT vs reference recogniser (CBMC, SAT)", "5/C08"),
  "C09": (MC, "From an ARBITRARY parser/writer state with an error set, one call of every public function: returns false/neutral, nothing advances, nothing is stored, error stays; inductive, hence for any call sequence after the first error; plus an API-only form (documents with one symbolic structure byte, calls continue after the error) that yields replayable findings.",
